@@ -92,6 +92,11 @@ func copyStrSlice(s []string) []string {
 func (l *runeLRU) Put(k runeLRUKey, q Query, v *font.Face) {
 	l.init()
 	val := &runeLRUEntry{key: k, v: v, families: copyStrSlice(q.Families)}
+	if old, ok := l.m[k]; ok {
+		// the key is already used, by an entry with other families (see Get) :
+		// unlink the entry that is replaced, or it would stay in the list for ever
+		l.remove(old)
+	}
 	l.m[k] = val
 	l.insert(val)
 	for len(l.m) > l.maxSize {
